@@ -151,7 +151,6 @@ def obs_impl(style):
         'keys=' + show_list([enc(k) for k in style.keys()]),
         'items=' + show_list([enc(style.item(i)) for i in range(-(n + 1), n + 2)]),
         'text=' + enc(style.cssText),
-        'ptext=' + enc(style.cssText),
         'ro=%d' % (1 if style._readonly else 0)])
 
 
@@ -590,6 +589,12 @@ class C10(Check):
         got = ctx.driver(['pdef'])[0]
         if got != want:
             ctx.disagree('default serializer preferences (SPrefs.default vs Preferences.useDefaults)', 'pdef', want, got)
+        live.useMinified()
+        want = prefs_line({k: getattr(live, k) for k in G.PREF_BOOLS + G.PREF_STRS})[len('prefs '):]
+        got = ctx.driver(['pmin'])[0]
+        if got != want:
+            ctx.disagree('minifying serializer preferences (minifiedPrefs vs Preferences.useMinified)', 'pmin', want, got)
+        live.useDefaults()
         for k in G.PREF_BOOLS + G.PREF_STRS:
             if getattr(live, k) != G.PREF_DEFAULTS[k]:
                 ctx.disagree('default serializer preferences (generator table)', k, getattr(live, k), G.PREF_DEFAULTS[k])
